@@ -366,6 +366,9 @@ def run(tier):
     import c13_engine
 
     c13_engine.register_all(ck, tier)
+    import c13_bootstrap
+
+    c13_bootstrap.register_all(ck, tier)
     ck.run_queries()
     ck.out.bounds = [
         "one add / remove / can_accept step from an ARBITRARY enforcer state: 8 LruCaches as SMT arrays over 128/32/64-bit keys, all 10 integer caps symbolic u64, network_size <= 2^32",
@@ -373,8 +376,8 @@ def run(tier):
         "arbitrary candidate analysis: arbitrary prefixes, ASN present or not, country present or not, hosting / VPN flags",
         "representation invariant assumed and re-proved: every tracked key has count >= 1",
     ]
-    ck.out.bounds += c13_engine.BOUNDS
-    ck.out.outside = ["LRU eviction at 50k tracked prefixes", "GeoProvider lookups (geo_provider = None)", "network sizes above 2^32", "other fractions"] + c13_engine.OUTSIDE
+    ck.out.bounds += c13_engine.BOUNDS + c13_bootstrap.BOUNDS
+    ck.out.outside = ["LRU eviction at 50k tracked prefixes", "GeoProvider lookups (geo_provider = None)", "network sizes above 2^32", "other fractions"] + c13_engine.OUTSIDE + c13_bootstrap.OUTSIDE
     ck.out.assumptions = ["cap in force is the one at admission time (set_network_size may lower the dynamic IPv4 cap below existing counts; no retroactive eviction is demanded)",
                           "single-threaded execution"]
     ck.out.trusted.append("z3 4.8.12 / z3 5.1 / cvc5 1.0 portfolio")
@@ -386,6 +389,10 @@ def replay(path):
 
 
 def _rebuild(ck, driver, params):
+    if driver == "add_peer":
+        import c13_bootstrap
+
+        return c13_bootstrap.rebuild(ck, driver, params)
     if driver in ("admission", "admission_step"):
         import c13_engine
 
